@@ -186,6 +186,9 @@ inductive Grouping where
   | by (ns : List String)
   | except (ns : List String)
   | none
+  /-- `group all time_agg("A")`: all identifiers, after converting the Time_Period identifier `tid` to the
+      year it lies in (`timeConv`, applied before grouping; see `aggrT`) -/
+  | all (tid : String)
   deriving Repr, Inhabited
 
 inductive Items where
@@ -208,6 +211,7 @@ def groupIds (g : Grouping) (d : DS) : R (List String) :=
   | .by ns => if subset ns d.ids then .ok (d.ids.filter ns.contains) else .error .type
   | .except ns => if subset ns d.ids then .ok (d.ids.filter (fun i => !ns.contains i)) else .error .type
   | .none => .ok []
+  | .all _ => .ok d.ids
 
 def itemsFor (its : Items) (d : DS) (gids : List String) : R (List AggItem) :=
   match its with
@@ -260,6 +264,25 @@ def aggr (spec : AggSpec) (d : DS) : R DS :=
   else
     (mapRows (groupRow d.meas gids items spec.having d.rows) (keyRows gids d.rows)) >>= fun rows =>
     pure { ids := gids, meas := items.map (·.out), rows := rows }
+
+/-! ### `group all time_agg("A")` -/
+
+/-- the annual period a Time_Period value lies in (Time_Period values are carried as their text, every
+spelling of which starts with the four-digit year: `2020Q1`, `2020-M03`, `2020S2`, `2020W05`, `2020A` …). -/
+def yearOf : Value → Value
+  | .str s => .str (String.ofList (s.toList.take 4))
+  | v => v
+
+def convRow (tid : String) (r : Row) : Row := r.map (fun p => if p.1 == tid then (p.1, yearOf p.2) else p)
+
+/-- the conversion of the time identifier that `group all time_agg` applies to the operand before grouping. -/
+def timeConv (g : Grouping) (d : DS) : R DS :=
+  match g with
+  | .all tid => if d.ids.contains tid then .ok { d with rows := d.rows.map (convRow tid) } else .error .type
+  | _ => .ok d
+
+/-- aggregation with every grouping form: the time conversion (identity except for `group all`), then `aggr`. -/
+def aggrT (spec : AggSpec) (d : DS) : R DS := (timeConv spec.grouping d) >>= aggr spec
 
 /-- the output measures whose values are squares of the VTL values (see `AggOp.squared`). -/
 def squaredOuts (spec : AggSpec) (d : DS) : List String :=
